@@ -489,6 +489,7 @@ pub fn c03(ctx: &mut Ctx) {
     c03_core(ctx);
     c03_unary_meaningful(ctx);
     c03_nested(ctx);
+    c03_nested2(ctx);
     crate::props_sizes::c03(ctx);
     crate::props_far::c03(ctx);
 }
@@ -561,6 +562,52 @@ pub fn c03_nested(ctx: &mut Ctx) {
                 ctx.cell(&format!("nested-arity:{}", cname));
             }
             ctx.mark_nontrivial_key(&format!("c03:nested:{}:{}", cname, op));
+        }
+    }
+}
+
+/// The same two contexts deep (a quantifier element inside a map expression, a default inside a
+/// fold step, ...): an implementation that validates once up front and then trusts a scope misses
+/// exactly the positions its up-front pass does not walk.
+pub fn c03_nested2(ctx: &mut Ctx) {
+    let data = json!({"a": 1, "current": 5, "accumulator": 6, "arr": [1, 2]});
+    let ops = all_ops();
+    let cs = contexts();
+    let mut idx = 0u64;
+    for (c1, mk1) in cs.iter() {
+        for (c2, mk2) in cs.iter() {
+            if *c1 == "top" || *c2 == "top" {
+                continue;
+            }
+            idx += 1;
+            if !ctx.mine(idx) {
+                continue;
+            }
+            for op in ops.iter() {
+                for n in 0..=5usize {
+                    if refsem::arity_ok(op, n) == Some(true) && n != 2 {
+                        continue;
+                    }
+                    let documented = refsem::arity_ok(op, n) == Some(true);
+                    let mut args = valid_tuple(op, n);
+                    if *op == "var" && n >= 1 {
+                        args[0] = json!(if c2.contains("acc") { "accumulator" } else { "current" });
+                    }
+                    let rule = mk1(mk2(json!({ *op: args })));
+                    let (obs, mo) = ctx.check("c03.model", &rule, &data);
+                    if !documented {
+                        ctx.mon("c03.arity").observed += 1;
+                        if let MOut::Err = mo {
+                            ctx.mon("c03.arity").judged += 1;
+                            if !matches!(obs.out, Outcome::Err(_)) {
+                                ctx.violation("c03.arity", &format!("accepted-undocumented-count:{}:{}:in-{}-in-{}", op, n, c2, c1), &rule, &data, json!("an error"), obs.out.brief(), "an undocumented operand count was accepted two operations deep");
+                            }
+                        }
+                    }
+                }
+            }
+            ctx.cell("nested-arity:two-deep");
+            ctx.mark_nontrivial_key(&format!("c03:nested2:{}:{}", c1, c2));
         }
     }
 }
